@@ -41,6 +41,10 @@ func stagedRun(q Node, tdoc Node, execs *int) Outcome {
 		if out.Rows == nil {
 			doc[c["name"].(string)] = []any{}
 		}
+		if body := c["q"].(Node); body["k"] == "select" && body["from"].(Node)["k"] == "dual" && len(out.Rows) == 1 {
+			// a query over dual hands its one row on as an object (New + Exec wrap it for the caller)
+			doc[c["name"].(string)] = DeepCopy(out.Rows[0])
+		}
 	}
 	outer := With(q, "with", []any{})
 	if from := q["from"].(Node); from["k"] == "derived" {
@@ -126,6 +130,9 @@ func checkC07(c Node) Verdict {
 				v.Execs++
 				wv := want[i].(map[string]any)[last["as"].(string)]
 				wl, _ := wv.([]any)
+				if obj, isObj := wv.(map[string]any); isObj {
+					wl = []any{obj} // a subquery over dual yields its one row as an object; run alone, New + Exec return it as a one-row result
+				}
 				if out.Err != nil || out.Panic != nil || !Equal(any(out.Rows), any(wl)) {
 					return fail("standalone", v.SQL+" ; "+subSQL, append(sig, "standalone"), "subquery standalone on row %d returns %s, inside the query %s", i, out.Describe(), Canon(wv))
 				}
